@@ -67,10 +67,11 @@ type event struct {
 	RetCre     int64
 
 	// effects
-	Ops    []POp
-	Cond   *PCond
-	NewExp int64 // != 0: the op sets ExpiredAt to this value
-	SetTo  *Body // Set mutator
+	Ops      []POp
+	Cond     *PCond
+	NewExp   int64 // != 0: the op sets ExpiredAt to this value
+	ClearExp bool  // the op clears ExpiredAt (the record never expires from then on)
+	SetTo    *Body // Set mutator
 }
 
 // step applies e to s and returns the possible successor states (empty with a
@@ -149,6 +150,9 @@ func step(s kstate, e *event) ([]kstate, string) {
 			if e.NewExp != 0 {
 				lost.Exp = e.NewExp
 			}
+			if e.ClearExp {
+				lost.Exp = 0
+			}
 			r := lost
 			r.Exists = true
 			return []kstate{lost, r}, ""
@@ -159,6 +163,9 @@ func step(s kstate, e *event) ([]kstate, string) {
 		s.Body = applyOps(e.Ops, s.Body)
 		if e.NewExp != 0 {
 			s.Exp = e.NewExp
+		}
+		if e.ClearExp {
+			s.Exp = 0
 		}
 		return one(s)
 	case evMCondFail:
